@@ -37,7 +37,9 @@ def swizzle_masks(n, rng, nrand, exhaustive_small):
     ms = [list(range(n)), list(range(n - 1, -1, -1))]
     for k in {0, 1, n // 2, n - 1}:
         ms.append([k] * n)
-    for r in {1, n // 2, n - 1}:
+    # rotations: together they put every value at every position (a kernel that decides per lane on `index >= n/2` and the like
+    # needs the boundary value at that very lane); all of them for n <= 8, a spread for wider batches
+    for r in (range(1, n) if n <= 8 else sorted({1, 2, 3, n // 4, n // 4 + 1, n // 2 - 1, n // 2, n // 2 + 1, 3 * n // 4, n - 2, n - 1})):
         ms.append([(i + r) % n for i in range(n)])
     ms.append([i ^ 1 for i in range(n)])                                   # swap neighbours
     ms.append([(i + n // 2) % n for i in range(n)])                        # swap halves
